@@ -521,6 +521,12 @@ def ab4(model):
     st.vars[f.params[0]] = Seq(LENTXT, 'str')
     st.vars[f.params[1]] = Int(OFF)
     st.facts = st.facts.add(OFF, LENTXT - OFF)
+    LEN = None
+    if len(f.params) >= 3:
+        # the caller passes offset and length of one regular-expression match inside txt
+        LEN = Aff.atom(('int', 'length'))
+        st.vars[f.params[2]] = Int(LEN)
+        st.facts = st.facts.add(LEN, LENTXT - OFF - LEN)
     ev.run(f.body, st)
     rets = [n for n in iter_scope(f.node) if isinstance(n, ast.Return) and isinstance(n.value, ast.Dict)]
     if not rets:
@@ -566,4 +572,16 @@ def ab4(model):
         else:
             r.fail(rets[0], 'the excerpt text does not have the length of the window: replaced '
                    'characters change the length')
+    # (c) the marked characters lie inside the excerpt: offset + length <= end of the window
+    if LEN is not None and 'length' in items:
+        lv = ev.as_int(ev.ev(items['length'], rst), rst)
+        hi = win[1] if win[1] is not None else LENTXT
+        if lv is not None and rst.facts.prove_ge0(hi - OFF - lv):
+            r.ok(rets[0], 'the marked range ends inside the window (offset + length <= end of the window)',
+                 nontrivial=True)
+        else:
+            r.fail(rets[0], 'the window ends at %r but the marked range ends at offset + %r: for a match '
+                   'that is longer than the part of the window behind the offset the excerpt marks '
+                   'characters that it does not contain' % (hi, lv),
+                   witness="--equation-punctuation all on 'See U-U-U' + 50 line breaks + 'Word'")
     return r
